@@ -7,7 +7,29 @@ from ..model import Expr, In, Ref, Program, Step
 
 
 def base_program(rng):
-    shape = rng.choice(["chain", "diamond", "fan_in", "wait_for", "enabled", "foreach", "foreach_after", "random_dag", "deploy_expr", "functions", "functions"])
+    shape = rng.choice(["chain", "diamond", "fan_in", "wait_for", "enabled", "foreach", "foreach", "foreach_after", "random_dag", "deploy_expr", "functions", "functions",
+                        "fault_by_input", "fault_by_input", "oneof_ordered"])
+    if shape == "fault_by_input":
+        # an expression that cannot be evaluated for some inputs (n = 0): such a run fails,
+        # and must leave the prepared workflow as it was
+        from ..model import Bin, Lit
+        a = gen.plugin_step("a", Expr(In("tag")), extra_input={"n": Expr(In("n"))})
+        q = Bin("/", Lit(100), In("n"))
+        if rng.random() < 0.5:
+            steps, outs = [a], {"success": {"t": gen.tagref("a"), "q": Expr(q)}}
+        else:
+            b = gen.plugin_step("b", gen.tagref("a"), extra_input={"n": Expr(q)})
+            steps, outs = [a, b], {"success": {"t": gen.tagref("b")}}
+        return shape, steps, outs
+    if shape == "oneof_ordered":
+        # both alternatives of the one-of are produced before the output is evaluated, in an order the workflow itself fixes
+        from ..model import OneOf
+        first = gen.plugin_step("first", Expr(In("tag")))
+        second = gen.plugin_step("second", gen.tagref("first"))
+        slow = gen.plugin_step("slow", gen.tagref("second"))
+        outs = {"success": {"winner": OneOf("which", {"first": Expr(Ref("first", "outputs", "success")), "second": Expr(Ref("second", "outputs", "success"))}),
+                            "s": gen.tagref("slow")}}
+        return shape, [second, slow, first], outs
     if shape == "functions":
         # values computed by built-in functions (a table shared by all runs) in the output and in a step input
         from ..model import Call
@@ -46,10 +68,25 @@ def run(check):
         inputs, fail_tags = [], {}
         for r in range(N):
             tag = "R%dx" % r
-            inp = {"tag": tag, "n": r}
+            inp = {"tag": tag, "n": r + 1}
+            if shape == "fault_by_input" and (rng.random() < 0.35 or r == 0 and rng.random() < 0.5):
+                inp["n"] = 0
             if has_fe:
-                inp["items"] = [{"tag": "%s-i%d" % (tag, k)} for k in range(rng.choice([1, 2, 3]))]
+                inp["items"] = [{"tag": "%s-i%d" % (tag, k)} for k in range(rng.choice([1, 2, 3, 5]))]
             inputs.append(inp)
+        if has_fe and rng.random() < 0.5:
+            # some items of some runs end their sub-workflow run with an error (no output of it is producible)
+            for s_ in steps:
+                if s_.kind == "foreach":
+                    first = s_.sub.steps[0]
+                    per_item = {}
+                    for inp in inputs:
+                        for it in inp["items"]:
+                            if rng.random() < 0.25:
+                                per_item[it["tag"]] = {"outcome": "crash"}
+                    if per_item:
+                        scripts.setdefault(first.src, {})["exec_by_tag"] = per_item
+                        fail_tags[first.src] = dict(per_item)
         # per-run failures keyed by the value the first step receives from its run's input
         if plugin_srcs and rng.random() < 0.6:
             for r in range(N):
@@ -57,7 +94,7 @@ def run(check):
                     src = plugin_srcs[0]
                     fail_tags.setdefault(src, {})[inputs[r]["tag"]] = {"outcome": rng.choice(["error", "crash"])}
             for src, bt in fail_tags.items():
-                scripts.setdefault(src, {})["exec_by_tag"] = bt
+                scripts.setdefault(src, {}).setdefault("exec_by_tag", {}).update(bt)
         runs = []
         for r in range(N):
             par = mode in ("overlapped", "overlapped+cancel") or (mode == "mixed" and r >= N // 2)
@@ -95,7 +132,7 @@ def run(check):
         shape, steps, outs = base_program(rng)
         prog = Program(steps, outs, gen.BASE_INPUT)
         scripts = gen.make_scripts(steps, {})
-        inp = {"tag": "P%d" % i, "n": i}
+        inp = {"tag": "P%d" % i, "n": i + 1}
         if any(s.kind == "foreach" for s in steps):
             inp["items"] = [{"tag": "P%d-i0" % i}, {"tag": "P%d-i1" % i}]
         case = {"id": "c14-p%04d" % i, "mode": "papi", "files": prog.files(), "scripts": scripts, "runs": [{"input": inp}], "extra": {"workers": rng.choice([2, 3, 4]), "iterations": 2, "share_prepared": False}}
@@ -148,6 +185,16 @@ def run(check):
                 check.report("runs@%s:%s" % (mode, v[0]), "%s N=%d %s, run %d (tag %s): %s" % (shape, N, mode, r, tags[r], v[1]), {"case": case, "run": rr, "result": runfam.strip(res, 200)})
             if rr.get("err"):
                 failed_before = True
+        if shape == "oneof_ordered":
+            which = {}
+            for r, rr in enumerate(runs):
+                d = rr.get("data")
+                if r != cancelled and rr.get("out_id") == "success" and isinstance(d, dict) and isinstance(d.get("winner"), dict):
+                    which.setdefault(str(d["winner"].get("which")), []).append(tags[r])
+            stats["oneof_choices_compared"] = stats.get("oneof_choices_compared", 0) + sum(len(v) for v in which.values())
+            if len(which) > 1:
+                check.report("runs@oneof-choice-varies", "%s N=%d %s: runs of one prepared workflow whose alternatives are produced in a fixed order chose different alternatives: %s" % (
+                    shape, N, mode, {k: v[:4] for k, v in which.items()}), {"case": case, "result": runfam.strip(res, 200)})
         # isolation at the plugin boundary: every input value carries exactly one run's tag
         for e in res.get("events") or []:
             if e["kind"] == "exec-start":
